@@ -88,8 +88,8 @@ theorem feedLoop_shape (E : Env) (l : List Member) (rem : Nat) :
     · simp only [hfit, if_false]
       exact ⟨[], by simp, by simp, by simp, by simp⟩
 
-theorem decode_list (E : Env) (l : List Bytes) (h : ∀ d ∈ l, ∃ u : Member, d = E.codec.encMember u ∧ MWire u) :
-    ∃ us : List Member, (∀ u ∈ us, MWire u) ∧ us.map E.codec.encMember = l := by
+theorem decode_list (E : Env) (Q : Member → Prop) (l : List Bytes) (h : ∀ d ∈ l, ∃ u : Member, d = E.codec.encMember u ∧ Q u) :
+    ∃ us : List Member, (∀ u ∈ us, Q u) ∧ us.map E.codec.encMember = l := by
   induction l with
   | nil => exact ⟨[], by simp, rfl⟩
   | cons d ds ih =>
@@ -138,11 +138,12 @@ theorem mwire_iff (m : Member) : MWire m ↔ Member.Wire m := by
 /-! ### the member section and the custom tail -/
 
 section
-variable (E : Env)
+variable (E : Env) (Q : Member → Prop)
 
-/-- what is needed of the state: records and pending updates within the wire range, custom items non-empty -/
+/-- what is needed of the state: records and pending updates satisfy `Q` (say: within the wire range, at
+    incarnations the instance was told), custom items non-empty -/
 def SendReady (s : State) : Prop :=
-  (∀ m ∈ s.ms, MWire m) ∧ (∀ e ∈ s.updates, ∃ u : Member, e.data = E.codec.encMember u ∧ MWire u) ∧
+  (∀ m ∈ s.ms, Q m) ∧ (∀ e ∈ s.updates, ∃ u : Member, e.data = E.codec.encMember u ∧ Q u) ∧
   (∀ e ∈ s.custom, 1 ≤ e.data.length)
 
 /-- outcome of `memberSection` -/
@@ -151,14 +152,14 @@ def SectionShape (msg : Msg) (rem0 : Nat) (c : Ctx) (r : R (Bytes × Nat)) : Pro
   | .ok sect c' => c'.s.custom = c.s.custom ∧ c'.s.hst = c.s.hst ∧ c'.eff = c.eff ∧ sect.2 ≤ rem0 ∧
       ((sect.1 = [] ∧ sect.2 = rem0 ∧ ¬ (Gen.needsPiggyback msg = true ∧ rem0 > Gen.piggybackMinSpace)) ∨
        (Gen.needsPiggyback msg = true ∧ rem0 > Gen.piggybackMinSpace ∧
-          ∃ us : List Member, (∀ u ∈ us, MWire u) ∧ sect.1 = sectionBytes E us ∧
+          ∃ us : List Member, (∀ u ∈ us, Q u) ∧ sect.1 = sectionBytes E us ∧
             sect.1.length + sect.2 ≤ rem0))
   | .err _ _ => True
   | .stuck _ => True
 
 theorem memberSection_shape (dst : Id) (msg : Msg) (pick : Pick) (rem0 : Nat) (c : Ctx)
-    (hs : SendReady E c.s) (hrem : rem0 ≤ c.s.cfg.mps) :
-    SectionShape E msg rem0 c (memberSection E dst msg pick rem0 c) := by
+    (hs : SendReady E Q c.s) (hrem : rem0 ≤ c.s.cfg.mps) :
+    SectionShape E Q msg rem0 c (memberSection E dst msg pick rem0 c) := by
   obtain ⟨hms, hupd, _⟩ := hs
   unfold memberSection SectionShape
   simp only [bind_run, getS_run]
@@ -184,7 +185,7 @@ theorem memberSection_shape (dst : Id) (msg : Msg) (pick : Pick) (rem0 : Nat) (c
           · simp [h4, panicAt]
           · simp only [h4, Bool.false_eq_true, if_false, pure_run]
             obtain ⟨pre, hp1, hp2, hp3, hp4⟩ := feedLoop_shape E r.reverse (rem0 - 2)
-            have hpw : ∀ u ∈ pre, MWire u := by
+            have hpw : ∀ u ∈ pre, Q u := by
               intro u hu
               have := hp1 u hu
               rw [List.mem_reverse] at this
@@ -206,8 +207,8 @@ theorem memberSection_shape (dst : Id) (msg : Msg) (pick : Pick) (rem0 : Nat) (c
           have hgt : rem0 > 2 := h1'.2
           obtain ⟨hw1, hw2, _⟩ := fill_space hf
           -- every written blob is the encoding of a wire-range member
-          have hD := fill_written (fun d => ∃ u : Member, d = E.codec.encMember u ∧ MWire u) hf hupd
-          have hus := decode_list E r.written hD
+          have hD := fill_written (fun d => ∃ u : Member, d = E.codec.encMember u ∧ Q u) hf hupd
+          have hus := decode_list E Q r.written hD
           obtain ⟨us, hus1, hus2⟩ := hus
           have hlen : us.length = r.written.length := by rw [← hus2]; simp
           refine ⟨by simp, by simp, by simp, by omega, Or.inr ⟨h1'.1, h1'.2, us, hus1, ?_, ?_⟩⟩
@@ -262,9 +263,9 @@ theorem customTail_shape (dst : Id) (msg : Msg) (pick : Pick) (space : Nat) (c :
     exact ⟨by simp, [], by simp [tailBytes], by simp, fun _ => rfl, by simp⟩
 
 /-- the shape of a datagram: header; then nothing, or (kinds that piggyback) count ++ members ++ framed items, or
-    (Broadcast) framed items; members within the wire range; items non-empty -/
+    (Broadcast) framed items; members satisfying `Q`; items non-empty -/
 def DatagramShape (h : Header) (bytes : Bytes) : Prop :=
-  ∃ (us : List Member) (items : List Bytes), (∀ u ∈ us, Member.Wire u) ∧ (∀ d ∈ items, 1 ≤ d.length) ∧
+  ∃ (us : List Member) (items : List Bytes), (∀ u ∈ us, Q u) ∧ (∀ d ∈ items, 1 ≤ d.length) ∧
     (bytes = E.codec.encHeader h ∨
      (h.msg ≠ .broadcast ∧ h.msg ≠ .announce ∧ bytes = E.codec.encHeader h ++ (sectionBytes E us ++ tailBytes items)) ∨
      (h.msg = .broadcast ∧ bytes = E.codec.encHeader h ++ tailBytes items))
@@ -273,7 +274,7 @@ def DatagramShape (h : Header) (bytes : Bytes) : Prop :=
 def SentShape (dst : Id) (msg : Msg) (c : Ctx) (r : R Unit) : Prop :=
   match r with
   | .ok _ c' => ∃ bytes, c'.eff = c.eff ++ [.send dst bytes] ∧ bytes.length ≤ c.s.cfg.mps ∧
-      DatagramShape E ⟨c.s.id, c.s.inc, dst, msg⟩ bytes
+      DatagramShape E Q ⟨c.s.id, c.s.inc, dst, msg⟩ bytes
   | .err _ _ => True
   | .stuck _ => True
 
@@ -285,8 +286,8 @@ theorem not_piggyback_kinds {msg : Msg} (h : ¬ Gen.needsPiggyback msg = true) :
   cases msg <;> simp [Gen.needsPiggyback, Gen.allowCustom] at h ⊢
 
 /-- **Every datagram `send_message` emits has the documented shape.** -/
-theorem sendMessage_shape (dst : Id) (msg : Msg) (c : Ctx) (hs : SendReady E c.s) :
-    SentShape E dst msg c (sendMessage E dst msg c) := by
+theorem sendMessage_shape (dst : Id) (msg : Msg) (c : Ctx) (hs : SendReady E Q c.s) :
+    SentShape E Q dst msg c (sendMessage E dst msg c) := by
   unfold sendMessage SentShape
   simp only [bind_run, getS_run]
   by_cases h0 : (E.debug && c.s.sendCap != c.s.cfg.mps) = true
@@ -303,8 +304,8 @@ theorem sendMessage_shape (dst : Id) (msg : Msg) (c : Ctx) (hs : SendReady E c.s
       | ok pick c1 =>
         obtain ⟨hs1, he1⟩ := hp
         simp only []
-        have hready : SendReady E c1.s := by rw [hs1]; exact hs
-        have hm := memberSection_shape E dst msg pick (c.s.cfg.mps - (E.codec.encHeader ⟨c.s.id, c.s.inc, dst, msg⟩).length) c1
+        have hready : SendReady E Q c1.s := by rw [hs1]; exact hs
+        have hm := memberSection_shape E Q dst msg pick (c.s.cfg.mps - (E.codec.encHeader ⟨c.s.id, c.s.inc, dst, msg⟩).length) c1
           hready (by rw [hs1]; omega)
         generalize memberSection E dst msg pick (c.s.cfg.mps - (E.codec.encHeader ⟨c.s.id, c.s.inc, dst, msg⟩).length) c1 = rm at hm ⊢
         cases rm with
@@ -353,7 +354,7 @@ theorem sendMessage_shape (dst : Id) (msg : Msg) (c : Ctx) (hs : SendReady E c.s
                   · refine ⟨[], items, by simp, hitems', Or.inr (Or.inr ⟨hb, ?_⟩)⟩
                     rw [h1', htail]; simp
               · have hk := needsPiggyback_kinds hnp
-                refine ⟨us, items, fun u hu => (mwire_iff u).1 (hus u hu), hitems', Or.inr (Or.inl ⟨hk.1, hk.2, ?_⟩)⟩
+                refine ⟨us, items, hus, hitems', Or.inr (Or.inl ⟨hk.1, hk.2, ?_⟩)⟩
                 rw [hsb, htail, List.append_assoc]
 
 end
